@@ -161,8 +161,11 @@ def programs_arrays(tier):
         F("x", T_u(8), (10, 8), style="zpad"),                     # #[bits(010..=017, rw)]
         F("f", T_bool(), (12 + 8, 1), style="zpad"),                # #[bit(020, rw)]
         F("y", T_u(8), (60, 8), style="zpad"),                     # #[bits(060..=067, rw)]
+    ])], props=("C01", "C02", "C09", "C16")))
+    progs.append(Program("litsty2", structs=[S("litsty2", 128, [
         F("z", T_u(4), (100, 4), array=(3, 8), style="zpad"),       # #[bits(100..=103, rw, stride = 008)]
-    ])], props=("C01", "C02", "C03", "C09", "C16")))
+        F("w", T_bool(), (9, 1), array=(2, 10), style="zpad"),      # #[bit(009, rw, stride = 010)]
+    ])], props=("C03", "C09", "C16")))
     if tier == "thorough":
         progs.append(Program("ar127", structs=[S("ar127", 127, [
             F("x", T_u(63), (1, 63), array=(2, None)),
